@@ -55,6 +55,7 @@ type interpreter struct {
 	onceDone           map[string]bool
 	panicTrace         []string
 	jsonSizes          map[*gomap]value
+	celRules           map[*value]string
 	jsonpathText       map[*value]string
 	locks              map[*value]*lockState
 }
@@ -169,6 +170,17 @@ func (i *interpreter) initPackage(pkg *ssa.Package) {
 		}
 	}
 	if skipInit[pkg.Pkg.Path()] {
+		return
+	}
+	if isCELPackage(pkg.Pkg.Path()) {
+		// cel-go is never executed (see cel.go); its initialisers are skipped. cel.BoolType must be a distinct non-nil
+		// pointer because the code under test compares an expression's output type with it.
+		if pkg.Pkg.Path() == "github.com/google/cel-go/cel" {
+			if g, ok := pkg.Members["BoolType"].(*ssa.Global); ok {
+				inner := zero(mustDeref(mustDeref(g.Type())))
+				*i.globals[g] = &inner
+			}
+		}
 		return
 	}
 	if init := pkg.Func("init"); init != nil && init.Blocks != nil {
